@@ -198,6 +198,22 @@ func checkC16(r *Run) {
 					run(c, tr, true)
 				}
 			}
+			// two adjacent bytes replaced by every pair of byte values (65,536 pairs per position), one byte replaced by
+			// every pair, two bytes replaced by every single byte: multi-byte sequences a text-aware compare might fold
+			for p := 0; p < len(base); p++ {
+				for x := 0; x < 65536; x++ {
+					pair := []byte{byte(x >> 8), byte(x)}
+					if p+1 < len(base) {
+						run(c, append(append(append([]byte(nil), base[:p]...), pair...), base[p+2:]...), false)
+					}
+					run(c, append(append(append([]byte(nil), base[:p]...), pair...), base[p+1:]...), false)
+				}
+				if p+1 < len(base) {
+					for x := 0; x < 256; x++ {
+						run(c, append(append(append([]byte(nil), base[:p]...), byte(x)), base[p+2:]...), false)
+					}
+				}
+			}
 			// the name padded with 1..24 copies of one byte (NUL, SP, '0', '-', 0xff, the name's own last byte), after or
 			// before it: still another name, whatever key width or bucket function the lookup uses
 			for _, pad := range []byte{0x00, ' ', '0', '-', 0xff, base[len(base)-1]} {
@@ -363,5 +379,5 @@ func init() {
 	}
 	register("C16", &checkDef{fn: checkC16,
 		rule:        "E4: GetHdrType/GetMethodNo on every byte string of length 0..3 (256 values), all 2^letters case variants of every table name, every one-edit neighbour (insert/substitute over 256 values, delete, transpose) compared with a map reference; ParseHdrLine's type for token-legal names; Name round trip; non-trivial = names that are table names",
-		quickBudget: 120 * time.Second, thorBudget: 10 * time.Minute})
+		quickBudget: 200 * time.Second, thorBudget: 15 * time.Minute})
 }
